@@ -32,12 +32,16 @@ FieldsOf(ns, name) ==
     [] ns = Tns /\ name = "Square" -> << <<"s1", Prim("Integer")>>, <<"w", Prim("Integer")>> >>
     [] ns = Tns /\ name = "Person" -> << <<"name", Prim("Unicode")>>, <<"age", Prim("Integer")>>, <<"born", Prim("Date")>> >>
     [] ns = App /\ name = "Circle" -> << <<"x", Prim("Unicode")>> >>
+    [] ns = Tns /\ name = "Session" -> << <<"token", Prim("Unicode")>>, <<"n", Prim("Integer")>>, <<"d", Prim("Date")>> >>
     [] OTHER -> <<>>
-Classes == {<<Tns, "Shape">>, <<Tns, "Circle">>, <<Tns, "Square">>, <<Tns, "Person">>, <<App, "Circle">>}
+Classes == {<<Tns, "Shape">>, <<Tns, "Circle">>, <<Tns, "Square">>, <<Tns, "Person">>, <<App, "Circle">>, <<Tns, "Session">>}
 \* a class and its registered descendants
 Family(ns, name) == IF ns = Tns /\ name = "Shape" THEN {<<Tns, "Shape">>, <<Tns, "Circle">>, <<Tns, "Square">>} ELSE {<<ns, name>>}
 Args == << <<"shape", Cls(Tns, "Shape")>>, <<"n", Prim("Integer")>>, <<"s", Prim("Unicode")>>, <<"d", Prim("Date")>>, <<"col", Enum>>,
-           <<"xs", ArrOf(Prim("Integer"))>>, <<"ps", ArrOf(Cls(Tns, "Person"))>>, <<"p", Cls(Tns, "Person")>> >>
+           <<"xs", ArrOf(Prim("Integer"))>>, <<"ps", ArrOf(Cls(Tns, "Person"))>>, <<"p", Cls(Tns, "Person")>>,
+           <<"fl", Prim("Double")>>, <<"b", Prim("Boolean")>> >>
+\* the SOAP request header of the service (delivered to user code as ctx.in_header)
+Header == Cls(Tns, "Session")
 
 \* ---- positions of the valid request (paths: names and 0-based indexes as strings) and their declared types
 Positions == { [path |-> <<"shape">>, t |-> Cls(Tns, "Shape")], [path |-> <<"shape", "s1">>, t |-> Prim("Integer")],
@@ -45,21 +49,29 @@ Positions == { [path |-> <<"shape">>, t |-> Cls(Tns, "Shape")], [path |-> <<"sha
                [path |-> <<"col">>, t |-> Enum], [path |-> <<"xs">>, t |-> ArrOf(Prim("Integer"))], [path |-> <<"xs", "0">>, t |-> Prim("Integer")],
                [path |-> <<"ps">>, t |-> ArrOf(Cls(Tns, "Person"))], [path |-> <<"ps", "0">>, t |-> Cls(Tns, "Person")],
                [path |-> <<"ps", "0", "age">>, t |-> Prim("Integer")], [path |-> <<"p">>, t |-> Cls(Tns, "Person")],
-               [path |-> <<"p", "name">>, t |-> Prim("Unicode")], [path |-> <<"p", "age">>, t |-> Prim("Integer")], [path |-> <<"p", "born">>, t |-> Prim("Date")] }
+               [path |-> <<"p", "name">>, t |-> Prim("Unicode")], [path |-> <<"p", "age">>, t |-> Prim("Integer")], [path |-> <<"p", "born">>, t |-> Prim("Date")],
+               [path |-> <<"fl">>, t |-> Prim("Double")], [path |-> <<"b">>, t |-> Prim("Boolean")] }
+\* positions inside the SOAP header (XML family, SOAP protocols only)
+HeaderPositions == { [path |-> <<"@hdr">>, t |-> Header], [path |-> <<"@hdr", "token">>, t |-> Prim("Unicode")],
+                     [path |-> <<"@hdr", "n">>, t |-> Prim("Integer")], [path |-> <<"@hdr", "d">>, t |-> Prim("Date")] }
 IsLeaf(t) == t.k \in {"prim", "enum"}
 
 \* ---- operators
 Xs == "http://www.w3.org/2001/XMLSchema"
 \* xsi:type targets: every class of the interface, XSD builtins, a name nobody declared
-RetagTargets == Classes \cup {<<Xs, "string">>, <<Xs, "int">>, <<Xs, "anyType">>, <<Xs, "date">>, <<Tns, "Nope">>, <<Tns, "Color">>, <<Tns, "f">>, <<Tns, "fResponse">>}
+\* (the array wrapper types are classes of the interface too)
+RetagTargets == Classes \cup {<<Xs, "string">>, <<Xs, "int">>, <<Xs, "integer">>, <<Xs, "anyType">>, <<Xs, "date">>, <<Tns, "Nope">>, <<Tns, "Color">>, <<Tns, "f">>, <<Tns, "fResponse">>,
+                              <<Tns, "integerArray">>, <<Tns, "PersonArray">>}
 \* leaf texts that are not values of the slot but NAME something: attributes of the model classes, other types' literals
 HostileTexts == {"Attributes", "__values__", "__type_name__", "validate_string", "mro", "__class__", "blue", "", "1e3", "2020-13-45", "None", "True"}
-XmlMutants == {[fam |-> "xml", pos |-> p, op |-> "retag", arg |-> q] : p \in Positions, q \in RetagTargets}
+XmlMutants == {[fam |-> "xml", pos |-> p, op |-> "retag", arg |-> q] : p \in Positions \cup HeaderPositions, q \in RetagTargets}
               \cup {[fam |-> "xml", pos |-> p, op |-> "text", arg |-> <<x, "">>] : p \in {q \in Positions : IsLeaf(q.t)}, x \in HostileTexts}
               \cup {[fam |-> "xml", pos |-> p, op |-> "struct", arg |-> <<"", "">>] : p \in {q \in Positions : IsLeaf(q.t)}}
               \cup {[fam |-> "xml", pos |-> p, op |-> "textonly", arg |-> <<"abc", "">>] : p \in {q \in Positions : ~IsLeaf(q.t)}}
 \* value kinds of a dict document put where another kind is declared (identifiers; the driver holds the trees)
-Trees == {"emptymap", "emptylist", "map1", "list1", "str", "strnum", "zero", "one", "false", "true", "float", "emptystr", "listlist", "personmap", "wrapped_person", "wrapped_appcircle"}
+\* (negfloat: -1.0, an integral float; null; ydate / yset: YAML's native date and set, which JSON and MessagePack cannot spell)
+Trees == {"emptymap", "emptylist", "map1", "list1", "str", "strnum", "zero", "one", "false", "true", "float", "emptystr", "listlist", "personmap", "wrapped_person", "wrapped_appcircle",
+          "negfloat", "null", "ydate", "yset", "listnull"}
 DictMutants == {[fam |-> "dict", pos |-> p, op |-> "replace", arg |-> <<x, "">>] : p \in Positions, x \in Trees}
 \* wrapper documents (ignore_wrappers = FALSE): the wrapper key of an object renamed
 WrapperNames == {"Shape", "Circle", "Square", "Person", "Nope", "f", "Color", "Integer"}
@@ -71,19 +83,21 @@ Mutants == XmlMutants \cup DictMutants \cup WrapMutants \cup FlatMutants
 
 \* ---- what the driver reports for a delivered value (its SHAPE):
 \*   <<"nil">> | <<"leaf", kind>> | <<"obj", ns, name, <<shape per flat field of THAT class>>>> | <<"seq", <<shapes>>>>
-NativeKind(p) == CASE p = "Integer" -> "int" [] p = "Unicode" -> "str" [] p = "Date" -> "date" [] p = "Boolean" -> "bool" [] OTHER -> "?"
+NativeKind(p) == CASE p = "Integer" -> "int" [] p = "Unicode" -> "str" [] p = "Date" -> "date" [] p = "Boolean" -> "bool" [] p = "Double" -> "float" [] OTHER -> "?"
 RECURSIVE Conforms(_, _)
 Conforms(t, s) ==
   IF s = <<"nil">> THEN TRUE
   \* (Python's bool IS an int: True in an Integer slot is an instance of the declared native type)
-  ELSE IF t.k = "prim" THEN s[1] = "leaf" /\ (s[2] = NativeKind(t.p) \/ (t.p = "Integer" /\ s[2] = "bool"))
+  \* (and an int in a Double slot is the same number: documents with one number kind cannot tell 5 from 5.0)
+  ELSE IF t.k = "prim" THEN s[1] = "leaf" /\ (s[2] = NativeKind(t.p) \/ (t.p = "Integer" /\ s[2] = "bool") \/ (t.p = "Double" /\ s[2] = "int"))
   ELSE IF t.k = "enum" THEN s[1] = "leaf" /\ s[2] \in {"enum:red", "enum:green"}
   ELSE IF t.k = "arr" THEN s[1] = "seq" /\ \A k \in 1..Len(s[2]) : Conforms(t.of, s[2][k])
   ELSE /\ s[1] = "obj" /\ <<s[2], s[3]>> \in Family(t.ns, t.name)
        /\ Len(s[4]) = Len(FieldsOf(s[2], s[3]))
        /\ \A k \in 1..Len(s[4]) : Conforms(FieldsOf(s[2], s[3])[k][2], s[4][k])
 \* o: [ncalls, args (shapes, one per argument of f), fault, client, escape]
-Called(o)  == o.ncalls = 1 /\ Len(o.args) = Len(Args) /\ \A k \in 1..Len(Args) : Conforms(Args[k][2], o.args[k])
+Called(o)  == o.ncalls = 1 /\ Len(o.args) = Len(Args) /\ (\A k \in 1..Len(Args) : Conforms(Args[k][2], o.args[k]))
+              /\ Conforms(Header, o.hdr)
 Refused(o) == o.ncalls = 0 /\ o.fault /\ o.client /\ ~o.escape
 Fails(o) == IF Called(o) \/ Refused(o) THEN {}
             ELSE (IF o.escape THEN {"Escape"} ELSE {})
